@@ -77,6 +77,7 @@ def reference(known, block, enforce, eff_active, src, dst, sending) -> bool:
 
 
 async def _run(ctx: Ctx, built: bool) -> None:
+    from ramses_tx.typing import QosParams  # noqa: PLC0415
     from ramses_rf import Gateway  # noqa: PLC0415
     from ramses_tx import exceptions as exc  # noqa: PLC0415
     from ramses_tx.command import Command  # noqa: PLC0415
@@ -229,6 +230,56 @@ async def _run(ctx: Ctx, built: bool) -> None:
                         "wanted (if ph then set_active' c a else c) sending s d end) steps) end) "
                         + common.coq_list(glue_cases, ";\n ") + ").")
 
+    # ---------------- O2b: the same filter while a command is IN FLIGHT (the real send path, a transport that echoes nothing): a packet that carries
+    #                  the very header of the command being sent -- an RQ's header names the destination, not the sender -- is still filtered by the
+    #                  lists of the configuration, whoever it comes from
+    for n in range(120 if thorough else 40):
+        known, block, enforce_cfg, active = gen_cfg(rng)
+        enforce = select_device_filter_mode(enforce_cfg, known, block)
+        got_msgs = []
+        pp = PortProtocol(got_msgs.append, disable_qos=False, enforce_include_list=enforce, exclude_list=block, include_list=known)
+
+        class Silent(Tr):
+            async def write_frame(self, frame, disable_tx_limits=False):
+                return None
+
+        pp.connection_made(Silent(active), ramses=True)
+        await asyncio.sleep(0)
+        eff_active = active if (active and active not in block) else None
+        dst = rng.choice([d for d in LISTABLE if d[:2] == "01"] or LISTABLE)
+        cmd = Command(f"RQ --- 18:000730 {dst} --:------ 1F09 001 00")
+        task = asyncio.ensure_future(pp.send_cmd(cmd, qos=QosParams(max_retries=0, timeout=3)))
+        for _ in range(4):
+            await asyncio.sleep(0)
+        in_flight = pp._context._cmd is cmd
+        for src in rng.sample([i for i in IDS if i not in ("--:------", "63:262142") and i != dst], 5):
+            frame = f"RQ --- {src} {dst} --:------ 1F09 001 00"
+            try:
+                pkt = Packet(dt.now(), "045 " + frame)
+            except Exception:  # noqa: BLE001
+                continue
+            before = len(got_msgs)
+            pp.pkt_received(pkt)
+            for _ in range(3):
+                await asyncio.sleep(0)
+            delivered = len(got_msgs) > before
+            exp = reference(known, block, enforce, eff_active, src, dst, False)
+            ctx.case(("glue-rx-in-flight", tuple(known), tuple(block), enforce, active, src, dst, in_flight), in_flight, "glue-receive:command-in-flight")
+            if delivered != exp:
+                ctx.violation("receive-path:" + ("unsound" if not exp else "overblocks") + (":while-a-command-with-that-header-is-in-flight" if in_flight else ""),
+                              "pkt_received delivers/drops against the configured lists while a command with the packet's own header is being sent",
+                              {"known_list": list(known), "block_list": list(block), "enforce": enforce, "active_gateway": active, "command_in_flight": str(cmd) if in_flight else None,
+                               "frame": frame, "delivered": delivered})
+                break
+        task.cancel()
+        try:
+            await task
+        except BaseException:  # noqa: BLE001, S110
+            pass
+        try:
+            pp.connection_lost(None)
+        except AssertionError:
+            pass
     # ---------------- X3/O3: gateway stage -- get_device over look-up histories
     gw_cases, gw_impl = [], []
     for n in range(120 if thorough else 40):
